@@ -72,7 +72,9 @@ func genCommand(r *Rng) database.Command {
 		c.Command += " " + rphrase(r, 0, 3)
 	}
 	if r.Chance(1, 8) {
-		c.Command += Pick(r, []string{" | grep x", " && echo ok", " >> out.log", " | pipe", " PIPE it"})
+		c.Command += Pick(r, []string{" | grep x", " && echo ok", " >> out.log", " | pipe", " PIPE it",
+			// near misses of the pipeline test: a lone '&' or '>' is not a pipeline
+			" &", " > out.txt", " 2>&1", " & disown", " a>b"})
 	}
 	if r.Chance(1, 40) {
 		c.Command = ""
